@@ -87,6 +87,9 @@ def unix_sock():
         path=st.integers(0, len(UNIX_PATHS) - 1),
         state=st.sampled_from([1, 3]),
         holders=st.lists(holder(), max_size=4, unique=True),
+        # a connection still in a listener's accept backlog: not attached to
+        # a file yet, the kernel prints inode 0 (like orphaned inet sockets)
+        orphan=st.sampled_from([False, False, False, True]),
     ))
 
 
@@ -203,6 +206,9 @@ def build(case):
         inet.append(dict(s, inode=inode))
     unix = []
     for s in case["unix"]:
+        if s.get("orphan"):
+            unix.append(dict(s, inode=0, holders=[]))
+            continue
         inode += 1
         unix.append(dict(s, inode=inode))
     k.set_file("/proc/net/tcp", render_inet(inet, 4, "tcp"))
